@@ -38,6 +38,8 @@ type Prop struct {
 	// Custom, when set, replaces the sharded worker scheme: it runs in the
 	// coordinator process itself and must not call pql code in-process.
 	Custom func(c *Custom)
+	// CustomReplay re-runs one recorded case of a Custom check.
+	CustomReplay func(c *Custom, raw json.RawMessage)
 	// ShardsQuick / ShardsThorough override the number of worker processes.
 	ShardsQuick, ShardsThorough int
 	// Race: workers use the race-detector build (vmon-race).
@@ -469,7 +471,13 @@ func conclude(p *Prop, tier string, seed int64, m *Merged) int {
 		ev.Assumptions = []string{}
 	}
 	b, _ := json.MarshalIndent(&ev, "", " ")
-	evPath := filepath.Join(vd, "evidence", p.ID+".json")
+	evDir := filepath.Join(vd, "evidence")
+	if d := os.Getenv("VERIF_EVIDENCE_DIR"); d != "" {
+		// self-tests against modified copies must not overwrite the evidence of the real tree
+		evDir = d
+		os.MkdirAll(evDir, 0o755)
+	}
+	evPath := filepath.Join(evDir, p.ID+".json")
 	os.WriteFile(evPath, append(b, '\n'), 0o644)
 
 	fmt.Printf("%s tier=%s seed=%d: decided=%d nontrivial=%d inconclusive=%v violations=%d known=%d wall=%.1fs\n",
@@ -578,3 +586,29 @@ func (c *Custom) HarnessError(msg string) {
 	c.m.harnessErrors = append(c.m.harnessErrors, msg)
 }
 func (c *Custom) SetShards(n int) { c.m.Shards = n }
+
+// RunCustomReplay re-runs one recorded case of a coordinator-side check and
+// returns the exit status.
+func RunCustomReplay(p *Prop, raw json.RawMessage, self, replayPath string) int {
+	vd := VerifDir()
+	runDir := filepath.Join(vd, ".run", fmt.Sprintf("%s-replay-%d", p.ID, os.Getpid()))
+	os.MkdirAll(runDir, 0o755)
+	defer os.RemoveAll(runDir)
+	m := &Merged{sets: map[string]map[string]struct{}{}}
+	m.Inconclusive = map[string]int64{}
+	m.Counters = map[string]int64{}
+	m.Max = map[string]int64{}
+	c := &Custom{Prop: p, Tier: "quick", Seed: 1, Dir: runDir, Self: self, m: m}
+	p.CustomReplay(c, raw)
+	if len(m.harnessErrors) > 0 {
+		fmt.Println("CHECK-ERROR", m.harnessErrors[0])
+		return 2
+	}
+	if len(m.Violations) > 0 {
+		fmt.Printf("  witness: %s\n    %s\n", strconv.Quote(clip(m.Violations[0].Key, 300)), clip(m.Violations[0].Msg, 1500))
+		fmt.Printf("VIOLATION property=%s replay=%s\n", p.ID, replayPath)
+		return 1
+	}
+	fmt.Printf("%s replay: held (decided=%d inconclusive=%v)\n", p.ID, m.Evaluations, m.Inconclusive)
+	return 0
+}
